@@ -250,8 +250,8 @@ Proof.
     destruct (eden_good _ l env_none_ok Wl a El) as [A1 A2].
     destruct (eden_good _ r env_none_ok Wr b Er) as [B1 B2].
     pose proof (wf_bits l Wl) as Bl.
-    destruct a as [aw av], b as [bw bv]. cbn [cbits cval] in *.
-    assert (bw = aw) by congruence. subst bw. apply c_bin_spec; (assumption || lia).
+    destruct a as [aw av], b as [bw bv]. cbn [cbits cval] in A1, A2, B1, B2 |- *.
+    subst aw bw. rewrite <- Eb in B2 |- *. apply c_bin_spec; (assumption || lia).
   - assert (Wx : wf x) by (destruct o; tauto). rewrite (IHx Wx).
     destruct (eden _ x) as [a| |] eqn:Ex; cbn [bind]; try reflexivity.
     destruct (eden_good _ x env_none_ok Wx a Ex) as [A1 A2].
@@ -270,7 +270,7 @@ Lemma mk_bin_err o l r : e_bits l <> e_bits r -> mk_bin o l r = Err ESort.
 Proof. intros E. unfold mk_bin. apply Z.eqb_neq in E. rewrite E. reflexivity. Qed.
 
 Lemma mk_ite_ok c t f : e_bits c = 1 -> e_bits t = e_bits f -> mk_ite c t f = Ok (EIte c t f).
-Proof. intros E1 E2. unfold mk_ite. rewrite E1, E2, Z.eqb_refl. reflexivity. Qed.
+Proof. intros E1 E2. unfold mk_ite. rewrite E1, E2, !Z.eqb_refl. reflexivity. Qed.
 
 Lemma mk_ext_ok o bits x : 1 <= e_bits x ->
   match o with Trun => bits < e_bits x | _ => e_bits x < bits end ->
@@ -299,10 +299,11 @@ Proof.
   intros W Wc Ec.
   induction e as [t|k|o l IHl r IHr|o bits x IHx|g IHg t IHt f IHf]; cbn [wf replace_scalar] in *.
   - destruct (scalar_eqb t s) eqn:Ets.
-    + exists (EConst c). cbn [eden e_bits]. rewrite Ets. repeat split; try tauto.
+    + exists (EConst c). cbn [eden e_bits]. rewrite Ets.
+      split; [reflexivity|]. split; [exact Wc|]. split; [|reflexivity].
       rewrite Ec. symmetry. apply scalar_eqb_bits. assumption.
-    + exists (EScalar t). cbn [eden e_bits wf]. rewrite Ets. repeat split; tauto.
-  - exists (EConst k). cbn [eden wf]. repeat split; tauto.
+    + exists (EScalar t). cbn [eden e_bits wf]. rewrite Ets. auto.
+  - exists (EConst k). cbn [eden wf]. auto.
   - destruct W as (Wl & Wr & Eb).
     destruct (IHl Wl) as (l' & Rl & Wl' & Bl & Dl). destruct (IHr Wr) as (r' & Rr & Wr' & Br & Dr).
     rewrite Rl, Rr. cbn [bind]. rewrite mk_bin_ok by congruence.
@@ -318,4 +319,270 @@ Proof.
     destruct (IHf Wf) as (f' & Rf & Wf' & Bf & Df).
     rewrite Rg, Rt, Rf. cbn [bind]. rewrite mk_ite_ok by congruence.
     exists (EIte g' t' f'). cbn [wf e_bits eden]. rewrite Dg, Dt, Df. repeat split; (assumption || congruence).
+Qed.
+
+(* ---------- arithmetic of the derived builders ---------- *)
+
+Lemma U_ones64 w : 0 <= w <= 64 -> U w 18446744073709551615 = 2 ^ w - 1.
+Proof.
+  intros Hw. change 18446744073709551615 with (2 ^ 64 - 1).
+  pose proof (pow_pos w ltac:(lia)) as P.
+  apply (U_unique w _ _ (2 ^ (64 - w) - 1)); [lia| |unfold inr; lia].
+  rewrite (pow_split 64 w) by lia. lia.
+Qed.
+
+Lemma mask_val w b : 1 <= w -> 0 <= b <= w -> s_shl w (2 ^ w - 1) (w - b) = (2 ^ b - 1) * 2 ^ (w - b).
+Proof.
+  intros Hw Hb. unfold s_shl. pose proof (pow_split w b Hb) as E.
+  pose proof (pow_pos b ltac:(lia)) as P. pose proof (pow_pos (w - b) ltac:(lia)) as Q.
+  destruct (Z.leb_spec w (w - b)).
+  - assert (b = 0) by lia. subst b. change (2 ^ 0) with 1. lia.
+  - apply (U_unique w _ _ (2 ^ (w - b) - 1)); [lia| |].
+    + rewrite E. ring.
+    + unfold inr. rewrite E. nia.
+Qed.
+
+Lemma sra_arith w a b : 1 <= w -> inr w a -> inr w b ->
+  s_or w (s_shr w a b)
+       (if s_cmplts w a 0 =? 1
+        then s_shl w (2 ^ w - 1) (if s_cmpltu w w b =? 1 then 0 else s_sub w w b)
+        else 0) = s_ashr w a b.
+Proof.
+  intros Hw Ha Hb. pose proof Ha as [A0 A1]. pose proof Hb as [B0 B1].
+  unfold s_or, s_cmplts, s_cmpltu, s_ashr. rewrite (S_zero w Hw).
+  pose proof (pow_half w Hw) as PH. pose proof (pow_pos (w - 1) ltac:(lia)) as PP.
+  unfold S. destruct (Z.ltb_spec a (2 ^ (w - 1))) as [La|La].
+  - destruct (Z.ltb_spec a 0); [lia|]. cbn [Z.eqb]. rewrite Z.lor_0_r. unfold s_shr.
+    destruct (Z.leb_spec w b); [reflexivity|]. symmetry. apply U_small. apply div_pow_inr; assumption.
+  - destruct (Z.ltb_spec (a - 2 ^ w) 0); [|lia]. cbn [Z.eqb Pos.eqb].
+    destruct (Z.ltb_spec w b) as [Lb|Lb]; cbn [Z.eqb Pos.eqb].
+    + unfold s_shr, s_shl. destruct (Z.leb_spec w b); [|lia]. destruct (Z.leb_spec w 0); [lia|].
+      change (2 ^ 0) with 1. rewrite Z.mul_1_r, Z.lor_0_l. apply U_small. unfold inr; lia.
+    + unfold s_sub. rewrite (U_small w (w - b)) by (pose proof (lt_pow2 w ltac:(lia)); unfold inr; lia).
+      rewrite mask_val by lia.
+      assert (SH : s_shr w a b = a / 2 ^ b).
+      { unfold s_shr. destruct (Z.leb_spec w b); [|reflexivity]. symmetry.
+        apply (div_pow_small w); [assumption|lia]. }
+      rewrite SH. rewrite lor_lo_hi by (lia || (apply div_pow_lt; (lia || assumption))).
+      destruct (Z.leb_spec w b).
+      * assert (b = w) by lia. subst b. rewrite (div_pow_small w a w) by (assumption || lia).
+        replace (w - w) with 0 by lia. change (2 ^ 0) with 1. lia.
+      * rewrite ashr_neg_arith by (assumption || lia). lia.
+Qed.
+
+Lemma rotl_arith w a b : 1 <= w -> inr w a -> 0 <= b <= w ->
+  s_or w (s_shl w a b) (s_shr w a (s_sub w w b)) = s_rotl w a b.
+Proof.
+  intros Hw Ha Hb. pose proof Ha as [A0 A1].
+  unfold s_or, s_sub, s_rotl.
+  rewrite (U_small w (w - b)) by (pose proof (lt_pow2 w ltac:(lia)); unfold inr; lia).
+  unfold s_shl, s_shr.
+  pose proof (pow_pos w ltac:(lia)) as PW.
+  destruct (Z.leb_spec w b).
+  - assert (b = w) by lia. subst b. replace (w - w) with 0 by lia. destruct (Z.leb_spec w 0); [lia|].
+    change (2 ^ 0) with 1. rewrite Z.div_1_r, Z.lor_0_l.
+    assert (X : U w (a * 2 ^ w) = 0) by (apply (U_unique w _ 0 a); unfold inr; lia). lia.
+  - destruct (Z.leb_spec w (w - b)).
+    + assert (b = 0) by lia. subst b. change (2 ^ 0) with 1. rewrite Z.mul_1_r, Z.lor_0_r.
+      replace (w - 0) with w by lia. rewrite (div_pow_small w a w) by (assumption || lia).
+      rewrite U_small by assumption. lia.
+    + pose proof (pow_pos b ltac:(lia)) as PB. pose proof (pow_pos (w - b) ltac:(lia)) as PQ.
+      assert (E : U w (a * 2 ^ b) = (a mod 2 ^ (w - b)) * 2 ^ b).
+      { unfold U. rewrite (pow_split w b) by lia. apply Z.mul_mod_distr_r; lia. }
+      rewrite E. apply lor_hi_lo; [lia|].
+      pose proof (div_pow_lt w a (w - b) ltac:(lia) Ha) as D.
+      replace (w - (w - b)) with b in D by lia. exact D.
+Qed.
+
+(* ---------- the derived builders on well-formed arguments ---------- *)
+
+Lemma allones_eq w : 1 <= w ->
+  (if w <=? 64 then Ok (expr_const 18446744073709551615 w)
+   else c <- c_sub (new_big 0 w) (new_big 1 w) ;; Ok (EConst c)) = Ok (EConst (mkc w (2 ^ w - 1))).
+Proof.
+  intros Hw. pose proof (pow_pos w ltac:(lia)) as P. pose proof (lt_pow2 w ltac:(lia)) as Q.
+  destruct (Z.leb_spec w 64).
+  - rewrite expr_const_spec, U_ones64 by lia. reflexivity.
+  - rewrite !new_big_spec by lia. rewrite U_zero by lia. rewrite (U_small w 1) by (unfold inr; lia).
+    rewrite c_sub_spec by (unfold inr; lia). cbn [bind]. unfold s_sub. do 3 f_equal.
+    apply (U_unique w _ _ (-1)); unfold inr; lia.
+Qed.
+
+Ltac build_steps :=
+  repeat (first [ rewrite mk_bin_ok by (cbn [e_bits is_cmp cbits]; congruence)
+                | rewrite mk_ite_ok by (cbn [e_bits is_cmp cbits]; congruence) ]; cbn [bind]).
+
+Ltac wf_fin := repeat match goal with |- _ /\ _ => split end;
+  try assumption; try congruence; try lia; unfold inr; try lia.
+
+Lemma sra_ok en l r w : env_ok en -> wf l -> wf r -> e_bits l = w -> e_bits r = w ->
+  exists e, sra l r = Ok e /\ wf e /\ e_bits e = w /\
+    eden en e = (a <- eden en l ;; b <- eden en r ;; Ok (mkc w (s_ashr w (cval a) (cval b)))).
+Proof.
+  intros Hen Wl Wr El Er. pose proof (wf_bits l Wl) as Bw. rewrite El in Bw.
+  pose proof (pow_pos w ltac:(lia)) as P. pose proof (lt_pow2 w ltac:(lia)) as Q.
+  unfold sra. rewrite El, Er, Z.eqb_refl. cbn [negb].
+  rewrite allones_eq by lia. rewrite !expr_const_spec by lia.
+  rewrite U_zero by lia. rewrite (U_small w w) by (unfold inr; lia).
+  build_steps.
+  eexists. split; [reflexivity|]. split; [|split].
+  - cbn [wf e_bits is_cmp cbits cval]. wf_fin.
+  - cbn [e_bits is_cmp]. assumption.
+  - cbn [eden].
+    destruct (eden en l) as [a| |] eqn:Dl; cbn [bind]; [|reflexivity|reflexivity].
+    destruct (eden en r) as [b| |] eqn:Dr; cbn [bind]; [|reflexivity|reflexivity].
+    destruct (eden_good en l Hen Wl a Dl) as [A1 A2]. destruct (eden_good en r Hen Wr b Dr) as [B1 B2].
+    destruct a as [aw av], b as [bw bv]. cbn [cbits cval] in A1, A2, B1, B2 |- *.
+    rewrite El in A1. rewrite Er in B1. subst aw bw.
+    cbn [sp_bin bind cbits cval].
+    rewrite <- (sra_arith w av bv) by (lia || assumption).
+    destruct (s_cmplts w av 0 =? 1); cbn [bind cval]; [|reflexivity].
+    destruct (s_cmpltu w w bv =? 1); cbn [bind cval]; reflexivity.
+Qed.
+
+Lemma rotl_ok en l r w : env_ok en -> wf l -> wf r -> e_bits l = w -> e_bits r = w ->
+  exists e, rotl l r = Ok e /\ wf e /\ e_bits e = w /\
+    eden en e = (a <- eden en l ;; b <- eden en r ;;
+                 Ok (mkc w (s_or w (s_shl w (cval a) (cval b)) (s_shr w (cval a) (s_sub w w (cval b)))))).
+Proof.
+  intros Hen Wl Wr El Er. pose proof (wf_bits l Wl) as Bw. rewrite El in Bw.
+  pose proof (pow_pos w ltac:(lia)) as P. pose proof (lt_pow2 w ltac:(lia)) as Q.
+  unfold rotl. rewrite El. rewrite !expr_const_spec by lia. rewrite (U_small w w) by (unfold inr; lia).
+  build_steps.
+  eexists. split; [reflexivity|]. split; [|split].
+  - cbn [wf e_bits is_cmp cbits cval]. wf_fin.
+  - cbn [e_bits is_cmp]. assumption.
+  - cbn [eden].
+    destruct (eden en l) as [a| |] eqn:Dl; cbn [bind]; [|reflexivity|reflexivity].
+    destruct (eden en r) as [b| |] eqn:Dr; cbn [bind]; [|reflexivity|reflexivity].
+    destruct (eden_good en l Hen Wl a Dl) as [A1 A2]. destruct (eden_good en r Hen Wr b Dr) as [B1 B2].
+    destruct a as [aw av], b as [bw bv]. cbn [cbits cval] in A1, A2, B1, B2 |- *.
+    rewrite El in A1. rewrite Er in B1. subst aw bw.
+    cbn [sp_bin bind cbits cval]. reflexivity.
+Qed.
+
+(* ---------- raw trees: build through the constructors, then evaluate ---------- *)
+
+Lemma sort2_SW a b k w : sort2 a b k = SW w -> exists x y, a = SW x /\ b = SW y /\ k x y = SW w.
+Proof. destruct a, b; cbn [sort2]; intros H; try discriminate H; eauto. Qed.
+
+(* case analysis on a specification-level sub-result, transported along an induction hypothesis *)
+Ltac den_sub en r D IH a :=
+  destruct (rden en r) as [[a| |]|];
+  [ rewrite (IH _ eq_refl); cbn [bind]
+  | rewrite (IH _ eq_refl); cbn [bind]; injection D as <-; reflexivity
+  | rewrite (IH _ eq_refl); cbn [bind]; injection D as <-; reflexivity
+  | discriminate D ].
+
+Lemma build_ok en : env_ok en -> forall r w, rsort r = SW w -> rbounded r ->
+  exists e, build r = Ok e /\ wf e /\ e_bits e = w /\ forall x, rden en r = Some x -> eden en e = x.
+Proof.
+  intros Hen.
+  induction r as [s|v k|o l IHl r IHr|o bits x IHx|c IHc t IHt f IHf|l IHl r IHr|l IHl r IHr];
+    intros w St Bd; cbn [rsort rbounded build rden] in *; unfold USIZE in *.
+  - destruct (Z.ltb_spec (sbits s) 1); [discriminate St|]. injection St as <-.
+    exists (EScalar s). cbn [wf e_bits eden]. split; [reflexivity|]. split; [lia|]. split; [reflexivity|].
+    intros x D. destruct (en s); injection D as <-; reflexivity.
+  - destruct (Z.ltb_spec k 1); [discriminate St|]. injection St as <-.
+    rewrite expr_const_spec by lia. eexists. split; [reflexivity|]. cbn [wf e_bits eden cbits cval].
+    split; [split; [lia|apply U_inr; lia]|]. split; [reflexivity|].
+    intros x D. injection D as <-. reflexivity.
+  - apply sort2_SW in St as (x & y & Sl & Sr & K).
+    destruct (Z.eqb_spec x y); [|discriminate K]. subst y. injection K as <-. destruct Bd as [Bl Br].
+    destruct (IHl x Sl Bl) as (l' & Rl & Wl & El & Dl). destruct (IHr x Sr Br) as (r' & Rr & Wr & Er & Dr).
+    rewrite Rl, Rr. cbn [bind]. rewrite mk_bin_ok by congruence.
+    eexists. split; [reflexivity|]. split; [cbn [wf]; wf_fin|]. split; [cbn [e_bits]; rewrite El; reflexivity|].
+    intros xx D. cbn [eden].
+    den_sub en l D Dl a. den_sub en r D Dr b. injection D as <-. reflexivity.
+  - destruct Bd as [Bb Bx].
+    destruct (rsort x) as [| |xw] eqn:Sx; try (destruct o; discriminate St).
+    destruct (IHx xw eq_refl Bx) as (x' & Rx & Wx & Ex & Dx). pose proof (wf_bits x' Wx) as Bw.
+    rewrite Rx. cbn [bind].
+    assert (K : w = bits /\ match o with Trun => 1 <= bits < xw | _ => xw < bits end).
+    { destruct o.
+      - destruct (Z.ltb_spec xw bits); [|discriminate St]. injection St as <-. auto.
+      - destruct (Z.ltb_spec xw bits); [|discriminate St]. injection St as <-. auto.
+      - destruct (Z.ltb_spec bits 1); [discriminate St|].
+        destruct (Z.ltb_spec bits xw); [|discriminate St]. injection St as <-. split; [reflexivity|lia]. }
+    destruct K as [-> K].
+    rewrite mk_ext_ok by (rewrite ?Ex; destruct o; lia).
+    eexists. split; [reflexivity|]. split; [cbn [wf]; rewrite Ex; destruct o; wf_fin|].
+    split; [reflexivity|].
+    intros xx D. cbn [eden].
+    den_sub en x D Dx a. injection D as <-. reflexivity.
+  - apply sort2_SW in St as (xc & y & Sc & Sy & K).
+    destruct (Z.eqb_spec xc 1); [|discriminate K]. subst xc. injection K as ->.
+    apply sort2_SW in Sy as (xt & xf & Stt & Sf & K).
+    destruct (Z.eqb_spec xt xf); [|discriminate K]. subst xf. injection K as ->.
+    destruct Bd as (Bc & Bt & Bf).
+    destruct (IHc 1 Sc Bc) as (c' & Rc & Wc & Ec & Dc). destruct (IHt w Stt Bt) as (t' & Rt & Wt & Et & Dt).
+    destruct (IHf w Sf Bf) as (f' & Rf & Wf & Ef & Df).
+    rewrite Rc, Rt, Rf. cbn [bind]. rewrite mk_ite_ok by congruence.
+    eexists. split; [reflexivity|]. split; [cbn [wf]; wf_fin|]. split; [cbn [e_bits]; assumption|].
+    intros xx D. cbn [eden].
+    den_sub en c D Dc cv. destruct (cval cv =? 1); [apply Dt|apply Df]; assumption.
+  - apply sort2_SW in St as (x & y & Sl & Sr & K).
+    destruct (Z.eqb_spec x y); [|discriminate K]. subst y. injection K as ->. destruct Bd as [Bl Br].
+    destruct (IHl w Sl Bl) as (l' & Rl & Wl & El & Dl). destruct (IHr w Sr Br) as (r' & Rr & Wr & Er & Dr).
+    rewrite Rl, Rr. cbn [bind].
+    destruct (sra_ok en l' r' w Hen Wl Wr El Er) as (e & Se & We & Ee & De).
+    exists e. split; [assumption|]. split; [assumption|]. split; [assumption|].
+    intros xx D. rewrite De.
+    destruct (rden en l) as [[a| |]|] eqn:Rdl;
+      [ rewrite (Dl _ eq_refl); cbn [bind]
+      | rewrite (Dl _ eq_refl); cbn [bind]; injection D as <-; reflexivity
+      | rewrite (Dl _ eq_refl); cbn [bind]; injection D as <-; reflexivity
+      | discriminate D ].
+    den_sub en r D Dr b. injection D as <-.
+    destruct (eden_good en l' Hen Wl a (Dl _ eq_refl)) as [A1 _]. rewrite A1, El. reflexivity.
+  - apply sort2_SW in St as (x & y & Sl & Sr & K).
+    destruct (Z.eqb_spec x y); [|discriminate K]. subst y. injection K as ->. destruct Bd as [Bl Br].
+    destruct (IHl w Sl Bl) as (l' & Rl & Wl & El & Dl). destruct (IHr w Sr Br) as (r' & Rr & Wr & Er & Dr).
+    rewrite Rl, Rr. cbn [bind].
+    destruct (rotl_ok en l' r' w Hen Wl Wr El Er) as (e & Se & We & Ee & De).
+    exists e. split; [assumption|]. split; [assumption|]. split; [assumption|].
+    intros xx D. rewrite De.
+    destruct (rden en l) as [[a| |]|] eqn:Rdl;
+      [ rewrite (Dl _ eq_refl); cbn [bind]
+      | rewrite (Dl _ eq_refl); cbn [bind]; injection D as <-; reflexivity
+      | rewrite (Dl _ eq_refl); cbn [bind]; injection D as <-; reflexivity
+      | discriminate D ].
+    destruct (rden en r) as [[b| |]|] eqn:Rdr;
+      [ rewrite (Dr _ eq_refl); cbn [bind]
+      | rewrite (Dr _ eq_refl); cbn [bind]; injection D as <-; reflexivity
+      | rewrite (Dr _ eq_refl); cbn [bind]; injection D as <-; reflexivity
+      | discriminate D ].
+    destruct (eden_good en l' Hen Wl a (Dl _ eq_refl)) as [A1 A2].
+    destruct (eden_good en r' Hen Wr b (Dr _ eq_refl)) as [B1 B2].
+    pose proof (wf_bits l' Wl) as Bw.
+    rewrite A1, El in *. rewrite B1, Er in B2.
+    destruct (Z.leb_spec (cval b) w); [|discriminate D]. injection D as <-.
+    rewrite rotl_arith by (lia || assumption || (destruct B2; lia)). reflexivity.
+Qed.
+
+Theorem eval_den : forall r w x, rbounded r -> rsort r = SW w -> rden (fun _ => None) r = Some x ->
+  (e <- build r ;; eval e) = x.
+Proof.
+  intros r w x Bd St D.
+  destruct (build_ok (fun _ => None) env_none_ok r w St Bd) as (e & B & W & _ & De).
+  rewrite B. cbn [bind]. rewrite eval_eden by assumption. apply De. assumption.
+Qed.
+
+Lemma env1_ok s v : 1 <= sbits s -> env_ok (env1 s (mkc (sbits s) (U (sbits s) v))).
+Proof.
+  intros Hs t k E. unfold env1 in E. destruct (scalar_eqb t s) eqn:Ets; [|discriminate E].
+  injection E as <-. cbn [cbits cval]. split; [symmetry; apply scalar_eqb_bits; assumption|apply U_inr; lia].
+Qed.
+
+Theorem replace_scalar_subst : forall r w s v x, rbounded r -> rsort r = SW w -> 1 <= sbits s < 2 ^ 64 ->
+  rden (env1 s (mkc (sbits s) (U (sbits s) v))) r = Some x ->
+  (e <- build r ;; e1 <- replace_scalar e s (EConst (new_big v (sbits s))) ;; eval e1) = x.
+Proof.
+  intros r w s v x Bd St Hs D.
+  rewrite new_big_spec by lia. set (c := mkc (sbits s) (U (sbits s) v)) in *.
+  destruct (build_ok (env1 s c) (env1_ok s v ltac:(lia)) r w St Bd) as (e & B & W & _ & De).
+  rewrite B. cbn [bind].
+  assert (Wc : wf (EConst c)) by (cbn [wf c cbits cval]; split; [lia|apply U_inr; lia]).
+  destruct (replace_ok (fun _ => None) s c e W Wc eq_refl) as (e' & R & W' & _ & D').
+  rewrite R. cbn [bind]. rewrite eval_eden by assumption. rewrite D'. apply De. assumption.
 Qed.
